@@ -71,7 +71,8 @@ func (w *Walker[T]) PushAll(nextElements ...T) (walker *Walker[T]) {
 func (w *Walker[T]) PushFront(nextElements ...T) (walker *Walker[T]) {
 	for _, nextElement := range nextElements {
 		if lo.Return2(w.pushedElements.Set(nextElement, types.Void)) && !w.revisitElements {
-			return w
+			// skip an element that was pushed before, but keep processing the remaining ones
+			continue
 		}
 
 		w.stack.PushFront(nextElement)
